@@ -105,6 +105,11 @@ type world struct {
 	attempts int
 	// reconciling is the Usage whose reconcile is running ("" outside one).
 	reconciling string
+	// interleaved: reconciles of different Usages run concurrently (see
+	// interleave_test.go); M4 then only counts Usages that are Ready, because
+	// a Usage created after the finalizing reconcile listed the Usages is
+	// inevitably missed - it re-adds the marker before it reports ready.
+	interleaved bool
 }
 
 // admit dispatches DELETE admission as the API server would for the
@@ -250,7 +255,15 @@ func (w *world) onWrite(rec *simkube.WriteRecord) {
 	}
 	// M4: the marker is removed only when the last Usage is deleted.
 	if rec.Call.Key == usedKey && rec.Before != nil && rec.Before.GetLabels()[inUseLabel] == "true" && rec.After != nil && rec.After.GetLabels()[inUseLabel] != "true" {
-		all, _ := w.usagesNaming()
+		all, readyNow := w.usagesNaming()
+		if w.interleaved {
+			for _, n := range readyNow {
+				if n != w.reconciling {
+					w.r.Failf("M4/marker-removed-while-ready-usage-exists", "%s removed the in-use marker while Usage %s of the resource is Ready (all: %v)", rec.Call, n, all)
+				}
+			}
+			return
+		}
 		others, othersTerminating := 0, 0
 		for _, n := range all {
 			u := w.s.Peek(usageKey(n))
@@ -326,13 +339,14 @@ func body(r *explore.Run, rep *report.R, sc string, depth int, form usageForm, p
 			w.reconciling = ""
 		}
 	}
-	events := []string{"reconcile-u1", "reconcile-u2", "create-u1", "create-u2", "delete-u1", "delete-u2", "delete-used", "delete-user", "gc", "clock"}
+	events := []string{"reconcile-u1", "reconcile-u2", "create-u1", "create-u2", "delete-u1", "delete-u2", "delete-used", "delete-user", "gc", "clock", "recreate-user"}
 	var trail []string
 	refused, allowed := 0, 0
 	for step := 0; step < depth; step++ {
 		r.SeenRank(report.Hash(s.Canonical()), depth-step)
 		ev := events[r.Free(len(events), fmt.Sprintf("ev%d", step))]
 		desc := ev
+		u1Completed := false
 		switch ev {
 		case "create-u1":
 			if s.Peek(usageKey("u1")) == nil {
@@ -349,6 +363,14 @@ func body(r *explore.Run, rep *report.R, sc string, depth int, form usageForm, p
 			}
 		case "delete-user":
 			_ = user.Delete(ctx, res(usingGK, "v1", "app"))
+		case "recreate-user":
+			// The using resource comes back under the same name: a new
+			// object with a new UID.
+			if s.Peek(simkube.ObjKey{Group: usingGK.Group, Kind: usingGK.Kind, Name: "app"}) == nil {
+				na := res(usingGK, "v1", "app")
+				na.SetLabels(map[string]string{"role": "app"})
+				_ = user.Create(ctx, na)
+			}
 		case "gc":
 			s.GCRun()
 		case "clock":
@@ -360,9 +382,11 @@ func body(r *explore.Run, rep *report.R, sc string, depth int, form usageForm, p
 			}
 			inj.Armed = true
 			w.reconciling = n
+			takenBefore := len(inj.Taken)
 			out := xrh.Reconcile(rec, types.NamespacedName{Name: n})
 			w.reconciling = ""
 			inj.Armed = false
+			u1Completed = n == "u1" && out.Err == nil && out.Crashed == nil && !out.Result.Requeue && len(inj.Taken) == takenBefore
 			if out.Crashed != nil {
 				rec = mkRec()
 			}
@@ -414,13 +438,21 @@ func body(r *explore.Run, rep *report.R, sc string, depth int, form usageForm, p
 						continue
 					}
 					owned := false
+					appNow := s.Peek(simkube.ObjKey{Group: usingGK.Group, Kind: usingGK.Kind, Name: "app"})
 					for _, o := range u.GetOwnerReferences() {
-						if o.Kind == usingGK.Kind && o.Name == "app" {
+						if o.Kind == usingGK.Kind && o.Name == "app" && (appNow == nil || o.UID == appNow.GetUID()) {
 							owned = true
 						}
 					}
-					if !owned {
-						r.Failf("M5/not-owned-by-using", "Usage u1 by app is ready but is not owned by the using resource")
+					// Judged right after a reconcile of u1 that found the using
+					// resource: then the owner must be that very object.
+					if !owned && (appNow == nil || u1Completed) {
+						r.Failf("M5/not-owned-by-using", "Usage u1 by app is ready but is not owned by the using resource as it exists now (owners %v, app UID %v)", u.GetOwnerReferences(), func() any {
+							if appNow == nil {
+								return "<absent>"
+							}
+							return appNow.GetUID()
+						}())
 					}
 				}
 			}
@@ -442,7 +474,7 @@ func body(r *explore.Run, rep *report.R, sc string, depth int, form usageForm, p
 func TestCheck(t *testing.T) {
 	rep := report.New("C19", "model_checking")
 	rep.Meta(
-		"States are API-server stores (used resource r with two served versions, using resource app, Usages u1 and u2); transitions are events {create/delete u1, create/delete u2, reconcile u1/u2 with the real usage.Reconciler (an API write fault or crash at any call, <=1 per sequence), DELETE r with propagation {unset, Background, Foreground, Orphan} through API version {v1, v2}, delete the using resource, garbage collector run, clock advance (replay-deletion)}; DELETE admission is dispatched to the real webhook Handler (with the real index function registered by SetupWebhookWithManager) according to the operations and objectSelector of cluster/webhookconfigurations/usage.yaml. Depth-bounded DFS with state-hash pruning ranked by remaining depth; u1 form enumerated: by reference / by selector / selector with controller match, with or without `by` (reference / selector), of-version v1 / v2, replayDeletion, composed (crossplane.io/composite label: deletion waits for the using resource); start states: u1 just created, or u1 and u2 both reconciled to Ready by the real reconciler. Monitors: M1 every DELETE is refused while some Usage naming r is Ready and not being deleted, and allowed when no Usage names r; M2 refused attempts are recorded; M3 marker before ready; M4 marker removed only by the last Usage (no other Usage naming r exists, terminating ones included); M5 Usage-by owned by the using resource.",
+		"States are API-server stores (used resource r with two served versions, using resource app, Usages u1 and u2); transitions are events {create/delete u1, create/delete u2, reconcile u1/u2 with the real usage.Reconciler (an API write fault or crash at any call, <=1 per sequence), DELETE r with propagation {unset, Background, Foreground, Orphan} through API version {v1, v2}, delete the using resource, garbage collector run, clock advance (replay-deletion)}; DELETE admission is dispatched to the real webhook Handler (with the real index function registered by SetupWebhookWithManager) according to the operations and objectSelector of cluster/webhookconfigurations/usage.yaml. Depth-bounded DFS with state-hash pruning ranked by remaining depth; u1 form enumerated: by reference / by selector / selector with controller match, with or without `by` (reference / selector), of-version v1 / v2, replayDeletion, composed (crossplane.io/composite label: deletion waits for the using resource); start states: u1 just created, or u1 and u2 both reconciled to Ready by the real reconciler. Thread-mode scenarios: the finalization of Usage u1 and the creation + reconciles of Usage u2 of the same resource run concurrently, all interleavings of their API calls with <= P preemptions. Monitors: M1 every DELETE is refused while some Usage naming r is Ready and not being deleted, and allowed when no Usage names r; M2 refused attempts are recorded; M3 marker before ready; M4 marker removed only by the last Usage (no other Usage naming r exists, terminating ones included); M5 Usage-by owned by the using resource.",
 		[]string{"simkube models the API server, serving the used kind under any version", "admission webhook dispatch follows the repository's webhook configuration (operations, objectSelector); failurePolicy and TLS are not modelled"},
 		[]string{"simkube", "controller-runtime admission types"},
 	)
@@ -489,6 +521,26 @@ func TestCheck(t *testing.T) {
 			name := fmt.Sprintf("u1/sel=%v,by=%v,bysel=%v,of=%s,replay=%v,composed=%v/start=%s", f.selector, f.by, f.bySelector, f.ofVersion, f.replay, f.composed, prep)
 			scs = append(scs, report.Scenario{Name: name, Bound: 1, Prune: true, Wrap: report.Bubble(t), OnCut: report.DrainTimers, Body: func(r *explore.Run) { body(r, rep, name, depth, f, prep) }})
 		}
+	}
+	// Concurrent reconciles of two Usages of one resource, interleaved at
+	// their API calls.
+	pb := 2
+	if report.Thorough() {
+		pb = 3
+	}
+	rep.Bound("preemptions", pb)
+	for _, fs := range []struct {
+		name   string
+		f1, f2 usageForm
+	}{
+		{"ref+ref", usageForm{ofVersion: "v1"}, usageForm{ofVersion: "v1"}},
+		{"ref+ref-other-version", usageForm{ofVersion: "v1"}, usageForm{ofVersion: "v2"}},
+		{"ref+selector", usageForm{ofVersion: "v1"}, usageForm{selector: true, ofVersion: "v1"}},
+		{"by+ref", usageForm{by: true, ofVersion: "v1"}, usageForm{ofVersion: "v1"}},
+	} {
+		fs := fs
+		name := "interleave/finalize-u1+create-u2/" + fs.name
+		scs = append(scs, report.Scenario{Name: name, Bound: pb, Wrap: report.Bubble(t), OnCut: report.DrainTimers, Body: func(r *explore.Run) { interleaveBody(r, rep, name, fs.f1, fs.f2, 2) }})
 	}
 	rep.SelfCheck(t, scs[0], nil)
 	rep.RunScenarios(t, scs)
